@@ -2,6 +2,7 @@ package node
 
 import (
 	"fmt"
+	"unicode/utf8"
 
 	"github.com/freeconf/yang/meta"
 	"github.com/freeconf/yang/val"
@@ -51,12 +52,24 @@ func (check fieldConstraints) checkRange(v val.Value, t *meta.Type) error {
 	if len(t.Range()) == 0 {
 		return nil
 	}
+	if v.Format().IsList() {
+		// each item of a leaf-list has to be in range on its own
+		var err error
+		val.ForEach(v, func(_ int, item val.Value) {
+			if err == nil {
+				err = check.checkRange(item, t)
+			}
+		})
+		return err
+	}
+	// there is a range for the type itself and for each typedef it derives from, the value
+	// has to be inside one of the alternatives of every one of them
 	for _, r := range t.Range() {
-		if err := r.CheckValue(v); err == nil {
-			return nil
+		if err := r.CheckValue(v); err != nil {
+			return fmt.Errorf("'%s' did not match any of the required ranges '%s'", v, r)
 		}
 	}
-	return fmt.Errorf("'%s' did not match any of the required ranges", v)
+	return nil
 }
 
 func (fieldConstraints) patternCheck(s string, patterns []*meta.Pattern) error {
@@ -75,10 +88,12 @@ func (fieldConstraints) lenCheck(s string, lengths []*meta.Range) error {
 	if len(lengths) == 0 {
 		return nil
 	}
+	// length is in characters, and like ranges every typedef along the way can add one
+	n := val.Int32(utf8.RuneCountInString(s))
 	for _, length := range lengths {
-		if err := length.CheckValue(val.Int32(len(s))); err == nil {
-			return nil
+		if err := length.CheckValue(n); err != nil {
+			return fmt.Errorf("string length outside allowed ranges. %s", s)
 		}
 	}
-	return fmt.Errorf("string length outside allowed ranges. %s", s)
+	return nil
 }
